@@ -156,6 +156,7 @@ class Program(object):
         self.version = 4712
         self.index = False          # False / True
         self.target = 'stream'      # 'stream' | 'path'
+        self.source = None          # optional: channels of a file read with TdmsFile.read, passed on as TdmsGroup/TdmsChannel objects
 
     def describe(self):
         out = []
@@ -166,7 +167,8 @@ class Program(object):
                             None if o.get('data') is None else (o['data'].kind, len(o['data'].expect)),
                             {k: (p.note, repr(p.value)[:40]) for k, p in (o.get('props') or {}).items()}) for o in seg])
             out.append(so)
-        return {'version': self.version, 'index': self.index, 'target': self.target, 'sessions': out}
+        src = None if self.source is None else [(n, t, len(v)) for n, t, v in self.source['channels']]
+        return {'version': self.version, 'index': self.index, 'target': self.target, 'sessions': out, 'source_file_channels': src}
 
 
 def gen_program(rng, types_mod, max_sessions=3, max_segments=5, max_objects=5, lens=(0, 1, 2, 3, 7, 20, 50)):
@@ -176,6 +178,8 @@ def gen_program(rng, types_mod, max_sessions=3, max_segments=5, max_objects=5, l
     prog.target = rng.choice(['stream', 'path'])
     groups = [rand_name(rng) for _ in range(rng.randint(1, 3))]
     chan_kinds = {}
+    if rng.random() < 0.3:
+        prog.source = gen_source(rng)
     for _ in range(rng.randint(1, max_sessions)):
         sess = []
         for _ in range(rng.randint(1, max_segments)):
@@ -187,7 +191,17 @@ def gen_program(rng, types_mod, max_sessions=3, max_segments=5, max_objects=5, l
                     props = {}
                     for _ in range(rng.randint(0, 4)):
                         props[rng.choice(['p', 'q', 'unit_string', 'é€', '', 'wf_start_time'])] = rand_prop(rng, types_mod)
-                if r < 0.12:
+                if prog.source is not None and r > 0.8:
+                    # an object read from another TDMS file (documented input of write_segment)
+                    if rng.random() < 0.3:
+                        key = ('group', prog.source['group'])
+                        o = {'kind': 'tdmsgroup', 'group': prog.source['group'], 'props': dict(prog.source['group_props'])}
+                    else:
+                        name, t, vals = rng.choice(prog.source['channels'])
+                        key = ('chan', prog.source['group'], name)
+                        o = {'kind': 'tdmschannel', 'group': prog.source['group'], 'channel': name, 'props': dict(prog.source['chan_props'][name]),
+                             'data': source_dataspec(t, vals)}
+                elif r < 0.12:
                     key, o = ('root',), {'kind': 'root', 'props': props}
                 elif r < 0.3:
                     g = rng.choice(groups)
@@ -207,6 +221,70 @@ def gen_program(rng, types_mod, max_sessions=3, max_segments=5, max_objects=5, l
     return prog
 
 
+def gen_source(rng):
+    """Content of a small source file whose TdmsGroup / TdmsChannel objects are handed to write_segment."""
+    from . import model as M
+    chans, cprops = [], {}
+    for i in range(rng.randint(1, 3)):
+        t = rng.choice(['i8', 'i32', 'u16', 'u64', 'f32', 'f64', 'f32u', 'bool', 'c64', 'str', 'ts', 'i64'])
+        n = rng.choice([1, 2, 5])
+        if t == 'str':
+            vals = [rand_text(rng) for _ in range(n)]
+        elif t == 'ts':
+            vals = [rand_dt(rng) for _ in range(n)]
+        else:
+            vals = M.rand_values(rng, t, n)
+        name = 's%d' % i
+        chans.append((name, t, vals))
+        cprops[name] = {'cp': PropSpec(1.5 + i, 10, 1.5 + i, 'float'), 'ci': PropSpec(2 ** 40 + i, 4, 2 ** 40 + i, 'int')}
+    return {'group': 'from file ' + rand_name(rng), 'channels': chans, 'chan_props': cprops,
+            'group_props': {'gp': PropSpec(7, 3, 7, 'int'), 'gs': PropSpec('src é', 0x20, 'src é', 'str')}}
+
+
+def source_dataspec(t, vals):
+    from . import model as M
+    if t == 'str':
+        return DataSpec(None, 'tdmschannel:str', list(vals), ('object', None))
+    if t == 'ts':
+        return DataSpec(None, 'tdmschannel:ts', np.array(vals, dtype='M8[us]'), ('exact', np.dtype('M8[us]')))
+    dt = np.dtype(M.TYPES[t][1])
+    return DataSpec(None, 'tdmschannel:' + t, np.asarray(vals, dtype=dt), ('exact', dt))
+
+
+def build_source(prog, nptdms):
+    """Encode the source content with the independent encoder and read it with TdmsFile.read."""
+    import io
+    import random
+    from . import model as M
+    src = prog.source
+    us2frac = lambda us: (-((-us * 2 ** 64) // 10 ** 6) + 2 ** 14) if us else 0
+    chans = []
+    values = {}
+    for name, t, vals in src['channels']:
+        if t == 'ts':
+            enc = []
+            for v in vals:
+                total = int(v.astype('int64')) + 2082844800 * 10 ** 6
+                enc.append((total // 10 ** 6, us2frac(total % 10 ** 6)))
+            values[M.qpath(src['group'], name)] = enc
+        else:
+            values[M.qpath(src['group'], name)] = vals
+        props = [(k, {10: 'f64', 4: 'i64'}[p.code], p.value) for k, p in src['chan_props'][name].items()]
+        chans.append((src['group'], name, t, len(vals), props))
+    gprops = {src['group']: [('gp', 'i32', 7), ('gs', 'str', 'src é')]}
+    segs = M.build_file(random.Random(0), chans, nseg=1, nchunks=(1,), group_props=gprops, values_fn=lambda p, t, n: values[p])
+    # string totals are fixed by build_file as 7 bytes per value: re-derive them from the actual strings
+    for s in segs:
+        fixed = []
+        for (p, hd, ix) in s.active:
+            if ix is not None and ix[0] == 'str':
+                ix = ('str', ix[1], M.str_total(values[p]))
+            fixed.append((p, hd, ix))
+        s.active = fixed
+        s.listing = [(p, h, (('str', ix[1], M.str_total(values[p])) if (ix is not None and ix[0] == 'str') else ix)) for p, h, ix in s.listing]
+    return nptdms.TdmsFile.read(io.BytesIO(M.encode_file(segs)[0]))
+
+
 class Shadow(object):
     """What the accepted calls have written so far."""
     def __init__(self):
@@ -217,12 +295,12 @@ class Shadow(object):
 
     def accept(self, seg):
         for o in seg:
-            key = () if o['kind'] == 'root' else ((o['group'],) if o['kind'] == 'group' else (o['group'], o['channel']))
+            key = () if o['kind'] == 'root' else ((o['group'],) if o['kind'] in ('group', 'tdmsgroup') else (o['group'], o['channel']))
             if key not in self.order:
                 self.order.append(key)
             for k, p in (o.get('props') or {}).items():
                 self.props.setdefault(key, {})[k] = p
-            if o['kind'] == 'channel':
+            if o['kind'] in ('channel', 'tdmschannel'):
                 self.data.setdefault(key, []).append(o['data'])
                 self.groups_implied.add(o['group'])
 
@@ -238,6 +316,7 @@ def run_program(prog, nptdms, tmpdir, stream_factory=io.BytesIO):
             os.remove(p)
     stream = stream_factory()
     istream = stream_factory() if prog.index else None
+    source = build_source(prog, nptdms) if prog.source is not None else None
     for si, sess in enumerate(prog.sessions):
         if prog.target == 'path':
             w = W(path, mode='w' if si == 0 else 'a', version=prog.version, index_file=bool(prog.index))
@@ -251,6 +330,10 @@ def run_program(prog, nptdms, tmpdir, stream_factory=io.BytesIO):
                     props = None if o.get('props') is None else {k: p.value for k, p in o['props'].items()}
                     if o['kind'] == 'root':
                         objs.append(nptdms.RootObject(props))
+                    elif o['kind'] == 'tdmsgroup':
+                        objs.append(source[o['group']])
+                    elif o['kind'] == 'tdmschannel':
+                        objs.append(source[o['group']][o['channel']])
                     elif o['kind'] == 'group':
                         objs.append(nptdms.GroupObject(o['group'], props))
                     else:
